@@ -13,16 +13,17 @@ import (
 
 // layout fixes where files may live and how the loader is configured.
 type layout struct {
-	mode     string
-	paths    []string // loader search paths (case-relative, "~/x" under home)
-	bases    []string // directories files are placed under (search dirs and private ones)
-	home     string
-	cwd      string
-	defaults bool
-	relL     bool
-	mainFile string
-	mainRel  bool   // the main program may use a relative search entry
-	initPath string // when not empty: a module file at this path is auto-included
+	mode              string
+	paths             []string // loader search paths (case-relative, "~/x" under home)
+	bases             []string // directories files are placed under (search dirs and private ones)
+	home              string
+	cwd               string
+	defaults          bool
+	relL              bool
+	mainFile          string
+	mainRel           bool   // the main program may use a relative search entry
+	noEmptyMainSearch bool   // C18.F2 known: no "" search entry in a program file
+	initPath          string // when not empty: a module file at this path is auto-included
 }
 
 func resolvedPaths(paths []string, home string) []string {
@@ -105,6 +106,7 @@ func genLayoutCLI(t *rapid.T, f2known bool) layout {
 	if rapid.IntRange(0, 2).Draw(t, "fromfile") == 0 {
 		lay.mainFile = rapid.SampledFrom([]string{"prog/main.jq", "main.jq", "L0/prog.jq"}).Draw(t, "mainfile")
 		lay.mainRel = true
+		lay.noEmptyMainSearch = f2known
 		if f2known && filepath.Clean(lay.cwd) != filepath.Dir(lay.mainFile) {
 			// known finding C18.F2: excluded by construction – either run from the
 			// program's directory or write no relative search entry in it
@@ -202,14 +204,23 @@ func searchKV(s string) metaKV {
 	return metaKV{Key: "search", Quoted: len(s)%2 == 1, Val: []byte(jstr(s))}
 }
 
+// styleRel draws one of the spellings of a relative directory; the importing
+// file's own directory is "", ".", "./", "./." or "s/..".
 func styleRel(t *rapid.T, rel string) string {
-	switch rapid.IntRange(0, 3).Draw(t, "relstyle") {
+	if rel == "." {
+		return rapid.SampledFrom([]string{"", ".", "", "./", "./.", "s/..", "s/../", "."}).Draw(t, "selfstyle")
+	}
+	switch rapid.IntRange(0, 5).Draw(t, "relstyle") {
 	case 0:
-		if !strings.HasPrefix(rel, "..") && rel != "." {
+		if !strings.HasPrefix(rel, "..") {
 			return "./" + rel
 		}
 	case 1:
 		return rel + "/"
+	case 2:
+		return rel + "/."
+	case 3:
+		return "s/../" + rel
 	}
 	return rel
 }
@@ -657,7 +668,16 @@ func genTree(t *rapid.T, lay layout, fl genFlags) treeCase {
 					usedAlias[alias] = true
 				}
 			}
-			f.Dirs = append(f.Dirs, genDirective(t, mdl, lay, dir, hasDir, ti, kind, alias))
+			d := genDirective(t, mdl, lay, dir, hasDir, ti, kind, alias)
+			if fi == nFiles && lay.noEmptyMainSearch {
+				// known finding C18.F2: the command drops an empty search entry of the program file
+				for k := range d.Meta {
+					if d.Meta[k].Key == "search" && string(d.Meta[k].Val) == `""` {
+						d.Meta[k].Val = []byte(`"."`)
+					}
+				}
+			}
+			f.Dirs = append(f.Dirs, d)
 		}
 		if rapid.IntRange(0, 2).Draw(t, "header") == 2 {
 			f.HasHeader = true
